@@ -120,6 +120,7 @@ func (v *Visitor) Visit(s *df.AnalyzerState, source df.NodeWithTrace) {
 	}
 
 	que := []*df.VisitorNode{v.roots[source]}
+	verifVisit("source", v.roots[source], nil)
 
 	if s.Config.UseEscapeAnalysis {
 		v.initEscapeAnalysisInfo(s, source)
@@ -130,6 +131,7 @@ func (v *Visitor) Visit(s *df.AnalyzerState, source df.NodeWithTrace) {
 	for len(que) != 0 {
 		cur := que[0]
 		que = que[1:]
+		verifVisit("visit", cur, nil)
 		// Report coverage information for the current node
 		addCoverage(s, cur, coverage)
 
@@ -151,6 +153,7 @@ func (v *Visitor) Visit(s *df.AnalyzerState, source df.NodeWithTrace) {
 			if v.taints.addNewPathCandidate(NewFlowNode(v.currentSource), NewFlowNode(cur.NodeWithTrace)) {
 				reportTaintFlow(s, v.currentSource, cur)
 			}
+			verifVisit("sink", cur, nil)
 			// Stop if there is a limit on number of alarms, and it has been reached.
 			if !s.IncrementAndTestAlarms() {
 				logger.Warnf("Reached the limit of %d alarms.", s.Config.MaxAlarms)
@@ -775,6 +778,7 @@ func (v *Visitor) addNext(s *df.AnalyzerState,
 		for _, condition := range edgeInfo.Cond.Conditions {
 			if isValidatorCondition(v.taintSpec, condition.Value, condition.IsPositive) {
 				s.Logger.Debugf("Validated %s.\n", condition)
+				verifVisit("validated", cur, nil)
 				return que
 			}
 		}
@@ -799,6 +803,7 @@ func (v *Visitor) addNext(s *df.AnalyzerState,
 	}
 	// No matching access paths for this edge
 	if len(nextNodeAccessPaths) == 0 {
+		verifVisit("nopath", cur, nil)
 		return que
 	}
 
@@ -832,6 +837,7 @@ func (v *Visitor) addNext(s *df.AnalyzerState,
 
 	// First set of stop conditions: node has already been seen, or depth exceeds limit
 	if v.seen[nextVisitorNode.Key()] || s.Config.ExceedsMaxDepth(cur.Depth) {
+		verifVisit("stop", cur, nextVisitorNode)
 		return que
 	}
 
@@ -846,12 +852,14 @@ func (v *Visitor) addNext(s *df.AnalyzerState,
 	// Second set of stopping conditions: the escape context is unchanged on a loop path
 	if (nextNodeWithTrace.Trace.GetLassoHandle() != nil || nextNodeWithTrace.ClosureTrace.GetLassoHandle() != nil) &&
 		!escapeContextUpdated {
+		verifVisit("lasso", cur, nextVisitorNode)
 		return que
 	}
 
 	cur.AddChild(nextVisitorNode)
 	que = append(que, nextVisitorNode)
 	v.seen[nextVisitorNode.Key()] = true
+	verifVisit("add", cur, nextVisitorNode)
 	return que
 }
 
